@@ -141,6 +141,9 @@ def cases(rng, tier):
     for kind in ("RSA-2048", "EC-P-256", "OKP-Ed25519"):
         for oth in ((False, True) if kind.startswith("RSA") else (False,)):
             out.append({"op": "public_export", "kind": kind, "oth": oth})
+    # one key set exported several times: each export is private or public as asked, whatever was exported before
+    for calls in (["private", "public"], ["public", "private"], ["private-json", "public-json"], ["public-json", "private", "public"], ["private", "public-json", "private-json"]):
+        out.append({"op": "keyset_hist", "kinds": ["RSA-2048", "EC-P-256", "OKP-Ed25519"], "calls": calls})
     out.append({"op": "keyset", "kinds": ["RSA-2048", "EC-P-256-lz", "OKP-Ed25519", "oct-16"]})
     out.append({"op": "keyset", "kinds": ["EC-P-521-lz", "OKP-X25519"]})
     return out
@@ -223,6 +226,16 @@ def impl(c):
         ks = KeySet([key])
         return {"exports": {"as_dict": sorted(key.as_dict()), "as_json": sorted(json.loads(key.as_json())), "keyset.as_dict": sorted(ks.as_dict()["keys"][0]),
                             "keyset.as_json": sorted(json.loads(ks.as_json())["keys"][0])}}
+    if op == "keyset_hist":
+        ks = KeySet([import_in_form(make_key(k, rng), "object", True, None) for k in c["kinds"]])
+        res = []
+        for call in c["calls"]:
+            try:
+                d = ks.as_dict(is_private=True) if call == "private" else ks.as_dict() if call == "public" else json.loads(ks.as_json(is_private=True) if call == "private-json" else ks.as_json())
+                res.append(sorted({m for k in d["keys"] for m in k}))
+            except Exception as e:
+                res.append("raised " + type(e).__name__)
+        return {"exports": res}
     if op == "keyset":
         ks = KeySet([import_in_form(make_key(k, rng), "object", True, None) for k in c["kinds"]])
         pub = ks.as_dict()
@@ -350,6 +363,15 @@ def oracle(c, out):
             bad(f"oct key imported from the text {c['text']!r}: k is {out['k']!r}, the raw key octets encode as {want!r}", kind="member-encoding", member="k", kty="oct", form="str")
         elif out["thumbprint"] != ref_thumbprint({"kty": "oct", "k": want}):
             bad(f"oct key imported from the text {c['text']!r}: thumbprint differs from the independent RFC 7638 value", kind="thumbprint", kty="oct", form="str")
+    elif op == "keyset_hist":
+        for call, members in zip(c["calls"], out["exports"]):
+            if isinstance(members, str):
+                bad(f"key set export ({call}) {members} in the history {c['calls']}", kind="private-export", where="keyset"); break
+            leak = PRIVATE_ONLY & set(members)
+            if call.startswith("public") and leak:
+                bad(f"public export of a key set contains private members {sorted(leak)} after the history {c['calls']}", kind="private-leak", where="keyset-history"); break
+            if call.startswith("private") and "d" not in members:
+                bad(f"private export of a key set of private keys has no private members after the history {c['calls']}", kind="private-export", where="keyset-history"); break
     elif op == "public_export":
         for name, members in out["exports"].items():
             leak = PRIVATE_ONLY & set(members)
